@@ -2,6 +2,7 @@ import Driver.States
 import Driver.AgentCause
 import Driver.Wait
 import Driver.Bridge
+import Driver.Sizing
 open Lean
 
 /-- line protocol: one JSON op per input line, one canonical JSON answer per line -/
@@ -19,5 +20,6 @@ def main (args : List String) : IO UInt32 := do
   | ["states"] => loop stdin Driver.States.handle; return 0
   | ["wait"] => loop stdin Driver.Wait.handle; return 0
   | ["bridge"] => loop stdin Driver.Bridge.handle; return 0
+  | ["sizing"] => loop stdin Driver.Sizing.handle; return 0
   | ["cause"] => loop stdin Driver.AgentCause.handle; return 0
   | _ => IO.eprintln "usage: rpmodel <suite>"; return 2
